@@ -74,6 +74,29 @@ def make_case(r):
             pred = 'has:s has:%22%22 | has:check-sat &'
         rules = realrun.simple_spec(pred)
         chain = kind
+    if chain is None and r.random() < 0.12:
+        # A step that only a mutator of the *last* pass can make (unquoting
+        # a symbol, emptying a string literal) and that comes late in the
+        # input makes it possible to erase an *earlier* command: the last
+        # pass has to start over after its last success.
+        # Exactly one candidate is acceptable (both occurrences renamed at
+        # once), so that with a slow accepted candidate no second success
+        # and no aborted task follows the success.
+        q = realrun.pct
+        old_name, new_name = r.choice([('ab', 'a'), ('ab', 'b'),
+                                       ('wxyz', 'wx'), ('|u v|', '|u |')])
+        lines = ['(declare-const keep Int)',
+                 f'(declare-const {old_name} Int)',
+                 f'(assert (> {old_name} 0))']
+        a = f'count:{q(old_name)}>=2 has:keep &'
+        b = f'count:{q(new_name)}>=2'
+        for _ in range(r.randint(0, 3)):
+            lines.insert(r.randint(0, 1), '(set-info :status sat)')
+        text = '\n'.join(lines + ['(check-sat)']) + '\n'
+        pred = (f'{a} {b} | has:check-sat & has:assert & '
+                f'count:declare-const>=1 &')
+        rules = realrun.simple_spec(pred)
+        chain = 'late'
     if chain is None and r.random() < 0.15:
         # A proposal that only the first (prelude) pass can make - binary
         # reduction restricted to assert commands - becomes applicable after
@@ -107,6 +130,19 @@ def make_case(r):
     if chain:
         strat = 'hierarchical'
     j = r.choice([1, 2, 4, 8])
+    slow_accept = False
+    if chain == 'late':
+        j = r.choice([2, 2, 4])
+    if chain in ('decl', 'string', 'quoted', 'late') and j >= 2 and (
+            r.random() < 0.7 or chain == 'late'):
+        # the accepted candidate is slow and everything else fast: with
+        # several workers the success is the *last* result of its sweep to
+        # arrive (no later result follows it)
+        # (slower than the generation of a whole sweep on these inputs)
+        rules = [realrun.rule(pred, 1, 'bug\n', '',
+                              delay_us=400000 if chain == 'late' else 120000),
+                 realrun.rule('all', 0, 'ok\n', '')]
+        slow_accept = True
     # explicit group flags: theory detection must not differ between the
     # two runs of observer (ii)
     groups = []
@@ -135,10 +171,13 @@ def make_case(r):
            'max_ms': 2} if r.random() < 0.6 else None
     delay = (r.randint(1, 999), r.choice([500, 3000])) \
         if r.random() < 0.5 else None
+    if slow_accept:
+        inj = None
+        delay = None
     return text, rules, opts, inj, delay, {
         'input': text, 'rules': rules, 'strategy': strat, 'jobs': j,
         'inject': inj, 'delay': delay, 'mutator_options': groups + toggles,
-        'chain': chain}
+        'chain': chain, 'slow_accept': slow_accept}
 
 
 def classify(acc):
@@ -158,6 +197,8 @@ def run_case(res, base, case, idx, second_run):
                             delay=delay)
     res.count('evaluations')
     res.count('runs')
+    if desc.get('slow_accept'):
+        res.count('runs_with_slow_accepted_candidates')
     witness = dict(desc)
     witness['opts'] = opts
     try:
@@ -255,7 +296,10 @@ def run(ctx):
         'real runs (hierarchical/hybrid, -j{1,2,4,8}, explicit group flags, '
         'random disabled mutators, command delays, LINE-level delay '
         'injection) on gen_smt scripts and assert-chains with predicates '
-        'has/count/subseq/hash/ntok/scoped/depth/parity; after reduce() the '
+        'has/count/subseq/hash/ntok/scoped/depth/parity, dependency chains '
+        '(a later node must go first; with -j>=2 in part with a slow '
+        'accepted candidate, so that the success is the last result of its '
+        'sweep); after reduce() the '
         'in-process sweep re-tests every proposal of every enabled mutator '
         'on the final input; every 2nd-3rd run is followed by a second '
         'hierarchical run on the output; distinct non-trivial = distinct '
